@@ -477,7 +477,10 @@ class Prop(PropBase):
                     elif op[0] == "offset_at":
                         _, how, k, num, den = op
                         dt = ((k + num / den) / r.sample_rate).to(u.s)
-                        o["k"] = int(r.offset_at(r.start_time + dt if how == "abs" else dt))
+                        tabs = r.start_time + dt
+                        if how == "abs" and (k + num) % 2:
+                            tabs = tabs.tai        # the same instant on another time scale
+                        o["k"] = int(r.offset_at(tabs if how == "abs" else dt))
                     elif op[0] == "time_at":
                         t = r.time_at(op[1])
                         o["t"] = X.rat(X.time_offset_s(t, info["t0"]))
